@@ -22,7 +22,8 @@
     next to each stands the exact characterisation that does hold. *)
 From Coq Require Import List NArith Bool Arith Strings.String.
 From Atlas Require Import Base.Bytes Dir.DirModel Dir.DirProofs Dir.DirDetect Dir.DirEdits Dir.DirGlob
-  Dir.DirRefuted Dir.DirWriters Dir.DirExact Dir.DirReason Dir.DirToyHash.
+  Dir.DirRefuted Dir.DirWriters Dir.DirExact Dir.DirReason Dir.DirToyHash
+  Dir.DirConsumersModel Dir.DirConsumers.
 Import ListNotations.
 
 Section C06.
@@ -315,6 +316,82 @@ Theorem C06_writers_refuted :
     (Exists (fun s => validate_store HS s <> VOk) (run_ops HS [] ops) \/ HS x = HS y).
 Proof. exact (writers_refuted_lemma HS HS_shape). Qed.
 
+(** ** Round 3: the consumers of a directory (DirConsumersModel.v)
+
+    "Any edit of a migration directory or its sum file is detected by every command that
+    consumes it", whatever the state of the target database.  In the model the database, the
+    dev database and all flags are one abstract [db : DB] and what a command does after
+    validation is an abstract [rest]; the theorems hold for every choice of them.
+
+    Full statement: for every command c other than [migrate hash]:
+      validate_store st <> VOk -> proceeds (run c st db) = false.
+    It is FALSE of the code in two ways (C06_consumers_exempt_refuted, both reproduced on the real
+    CLI, both open known findings); what holds is the statement outside [exempt]. *)
+Theorem C06_consumers_never_proceed_except :
+  forall (is_checkpoint : bytes -> bool) (DB R : Type) (setup_ok : command -> DB -> bool)
+         (rest : command -> store -> DB -> R) (c : command) (st : store) (db : DB),
+  validate_store HS st <> VOk -> exempt HS is_checkpoint c st = false ->
+  proceeds R (run HS is_checkpoint DB R setup_ok rest c st db) = false.
+Proof. exact (consumers_never_proceed_lemma HS). Qed.
+
+(** the commands that look at the directory first (all but the schema commands, which reach it
+    through Executor.Replay after opening their databases) answer with Validate's own error --
+    the *ChecksumError / ErrChecksumMismatch / ErrChecksumFormat / ErrChecksumNotFound of the
+    directory -- for every [db]: fresh, fully applied, partially applied, with pending files. *)
+Theorem C06_consumers_refuse_first :
+  forall (is_checkpoint : bytes -> bool) (DB R : Type) (setup_ok : command -> DB -> bool)
+         (rest : command -> store -> DB -> R) (c : command) (st : store) (db : DB),
+  validate_store HS st <> VOk -> exempt HS is_checkpoint c st = false -> validates_first c = true ->
+  run HS is_checkpoint DB R setup_ok rest c st db = Refused (validate_store HS st).
+Proof. exact (consumers_refuse_first_lemma HS). Qed.
+
+(** the library entry points: Pending, ExecuteN, and ExecuteTo when no checkpoint follows the version *)
+Theorem C06_executor_entry_points_refuse :
+  forall (is_checkpoint : bytes -> bool) (DB R : Type) (k : store -> DB -> R) (st : store) (db : DB),
+  validate_store HS st <> VOk ->
+  executor_pending HS DB R k st db = Refused (validate_store HS st) /\
+  execute_n HS DB R k st db = Refused (validate_store HS st) /\
+  (forall i, before_checkpoint is_checkpoint i st = false ->
+     execute_to HS is_checkpoint DB R k (Some i) st db = Refused (validate_store HS st)).
+Proof. exact (executor_entry_points_lemma HS). Qed.
+
+(** untampered controls: a directory that validates is never answered with a checksum error *)
+Theorem C06_consumers_accept_untouched :
+  forall (is_checkpoint : bytes -> bool) (DB R : Type) (setup_ok : command -> DB -> bool)
+         (rest : command -> store -> DB -> R) (c : command) (st : store) (db : DB) (v : vresult),
+  validate_store HS st = VOk -> validates_first c = true ->
+  run HS is_checkpoint DB R setup_ok rest c st db <> Refused v.
+Proof. intros. apply (consumers_accept_valid_first_lemma HS); assumption. Qed.
+
+(** refutation 1, in general: ExecuteTo(version) with a checkpoint file after the version hands
+    Pending a MemDir copy that CopyFiles has just hashed: it proceeds on EVERY directory
+    Dir.Files() can return -- there is no hypothesis on [validate_store st]. *)
+Theorem C06_execute_to_before_checkpoint_unvalidated :
+  forall (is_checkpoint : bytes -> bool) (DB R : Type) (k : store -> DB -> R) (i : nat) (st : store) (db : DB),
+  names_ok (files_of st) = true -> forallb sqlf (files_of st) = true -> sorted_strict (files_of st) = true ->
+  before_checkpoint is_checkpoint i st = true ->
+  execute_to HS is_checkpoint DB R k (Some i) st db
+  = Proceeded (k (apply_op HS [] (OpCopyFiles (firstn (S i) (files_of st)))) db).
+Proof. exact (execute_to_before_checkpoint_lemma HS HS_shape). Qed.
+
+(** refutations 1 and 2 on one witness (atlas.sum removed from {1.sql, 2.sql}; no hash involved):
+    lint goes on; a schema command with version=1 goes on when 2.sql is a checkpoint. *)
+Theorem C06_consumers_exempt_refuted :
+  forall (is_checkpoint : bytes -> bool) (DB R : Type) (setup_ok : command -> DB -> bool)
+         (rest : command -> store -> DB -> R),
+  exists st : store,
+    validate_store HS st = VNotFound /\
+    (forall db, setup_ok CLint db = true ->
+       run HS is_checkpoint DB R setup_ok rest CLint st db = Proceeded (rest CLint st db)) /\
+    (forall db, is_checkpoint (bs "B;") = true -> setup_ok (CStateSQL (Some (Some 0))) db = true ->
+       proceeds R (run HS is_checkpoint DB R setup_ok rest (CStateSQL (Some (Some 0))) st db) = true).
+Proof. intros. exists wx_store. apply (consumers_exempt_refuted_lemma HS HS_shape). Qed.
+
+(** [migrate hash], the one command allowed to repair, leaves a directory that validates *)
+Theorem C06_migrate_hash_repairs :
+  forall st : store, store_ok st = true -> validate_store HS (migrate_hash HS st) = VOk.
+Proof. exact (migrate_hash_repairs_lemma HS HS_shape). Qed.
+
 End C06.
 
 (** What the decidable name predicates used above mean. *)
@@ -355,6 +432,13 @@ Print Assumptions C06_validate_panic_refuted.
 Print Assumptions C06_writers_inv.
 Print Assumptions C06_writers_refuted.
 Print Assumptions C06_name_predicates_spec.
+Print Assumptions C06_consumers_never_proceed_except.
+Print Assumptions C06_consumers_refuse_first.
+Print Assumptions C06_executor_entry_points_refuse.
+Print Assumptions C06_consumers_accept_untouched.
+Print Assumptions C06_execute_to_before_checkpoint_unvalidated.
+Print Assumptions C06_consumers_exempt_refuted.
+Print Assumptions C06_migrate_hash_repairs.
 Print Assumptions C06_hash_shape_satisfiable.
 
 (** * Non-vacuity: concrete inputs meeting the hypotheses (toy hash) *)
@@ -443,3 +527,36 @@ Example ex_writers_refuted :
   map (validate_store toy_hs) (run_ops toy_hs [] wc_ops)
   = [VOk; VChecksum 2 1 48 (bs "2.sql") Added].
 Proof. vm_compute. reflexivity. Qed.
+
+(* round 3: consumers.  DB = a three-valued database state, rest = unit; toy hash; a file is a checkpoint
+   when it starts with "-- atlas:checkpoint" (here: content equals [ck_c]) *)
+Definition ck_c : bytes := bs "-- atlas:checkpoint" ++ [NL; NL] ++ bs "A;".
+Definition ex_is_ck (c : bytes) : bool := bytes_eqb c ck_c.
+Definition ex_run (c : command) (st : store) (db : nat) : outcome unit :=
+  run toy_hs ex_is_ck nat unit (fun _ _ => true) (fun _ _ _ => tt) c st db.
+Definition ex_st : store := write_sum toy_hs [(bs "1_a.sql", bs "A;"); (bs "2_b.sql", bs "B;")].
+Definition ex_st_edit : store := store_put ex_st (bs "1_a.sql") (bs "a;").           (* applied file edited by one byte *)
+Definition ex_st_ck : store :=                                                          (* 3_c is a checkpoint; 1_a edited *)
+  store_put (write_sum toy_hs [(bs "1_a.sql", bs "A;"); (bs "2_b.sql", bs "B;"); (bs "3_c.sql", ck_c)]) (bs "1_a.sql") (bs "a;").
+Example ex_consumers :
+  validate_store toy_hs ex_st = VOk /\
+  validate_store toy_hs ex_st_edit = VChecksum 2 2 48 (bs "1_a.sql") Edited /\
+  exempt toy_hs ex_is_ck CApply ex_st_edit = false /\
+  (* hypotheses of C06_consumers_never_proceed_except / _refuse_first are met, for three database states *)
+  map (ex_run CApply ex_st_edit) [0; 1; 2] = repeat (Refused (VChecksum 2 2 48 (bs "1_a.sql") Edited)) 3 /\
+  ex_run CStatus ex_st_edit 0 = Refused (VChecksum 2 2 48 (bs "1_a.sql") Edited) /\
+  ex_run (CStateSQL None) ex_st_edit 0 = Refused (VChecksum 2 2 48 (bs "1_a.sql") Edited) /\
+  (* the control proceeds (C06_consumers_accept_untouched) *)
+  ex_run CApply ex_st 0 = Proceeded tt /\
+  (* lint: a missing sum is accepted, an edited file is not *)
+  ex_run CLint [(bs "1_a.sql", bs "A;")] 0 = Proceeded tt /\
+  ex_run CLint ex_st_edit 0 = Refused (VChecksum 2 2 48 (bs "1_a.sql") Edited) /\
+  (* version 2 lies before the checkpoint 3_c: the edited directory is accepted; version 3 / no version: refused *)
+  before_checkpoint ex_is_ck 1 ex_st_ck = true /\
+  validate_store toy_hs ex_st_ck <> VOk /\
+  ex_run (CStateSQL (Some (Some 1))) ex_st_ck 0 = Proceeded tt /\
+  proceeds unit (ex_run (CStateSQL (Some (Some 2))) ex_st_ck 0) = false /\
+  proceeds unit (ex_run (CStateSQL None) ex_st_ck 0) = false /\
+  (* migrate hash repairs *)
+  store_ok ex_st_edit = true /\ validate_store toy_hs (migrate_hash toy_hs ex_st_edit) = VOk.
+Proof. vm_compute. repeat split; try reflexivity; discriminate. Qed.
